@@ -225,7 +225,7 @@ def run(ctx):
         ctx.violation("R20.4", "conjure_rust", "anchor|main", "main not found")
         return
     # the flag -> Config translation may live in a private helper of the CLI
-    main = inline.expand(cr, main[0], depth=2, pred=lambda cb: cb.d.get("vis") != "pub" or cb.id.startswith("conjure_rust::"))
+    main = inline.expand(cr, main[0], depth=2, pred=lambda cb: cb.d.get("vis") != "pub" or cb.id.startswith("conjure_rust::"), lower=True)
     args_adt = None
     for path, a in cr.adts.items():
         if a.get("local") and a["kind"] == "struct" and any(f["name"] == "output_directory" or f["name"] == "exhaustive" for f in a["variants"][0]["fields"]):
